@@ -529,6 +529,8 @@ def run_document_impl(doc, loader=None):
         for f, lv in loaded.items():
             if f not in written and lv is not None and lv != {}:
                 diffs.append("detector.%s.%s not written but loaded as %r" % (sect, f, lv))
+    if diffs and type(det).__name__ != doc["kind"]:
+        return {"load": "ok", "diffs": diffs}
     pipe = cfg.pipeline
     for g in pipe.model_group_names:
         grp = getattr(pipe, g)
@@ -546,6 +548,9 @@ def run_document_impl(doc, loader=None):
             if canon_any(dict(m.arguments)) != canon_any(w.get("arguments") or {}):
                 diffs.append("model %s.%s arguments written %r loaded %r" % (g, w["name"], w.get("arguments"), dict(m.arguments)))
     mode = cfg.running_mode
+    if type(mode).__name__ != MODE_CLASS[doc["mode"]]:
+        diffs.append("running mode written %s loaded %s" % (doc["mode"], type(mode).__name__))
+        return {"load": "ok", "diffs": diffs}
     ro = doc["readout"] or {}
     exp_times = ro.get("_expected", [1])
     if [float(t) for t in mode.readout.times] != [float(t) for t in exp_times]:
